@@ -33,13 +33,18 @@ def run(ctx, chk):
     n_fresh = 0
     selfp = ("param", d.fi.params[0])
     statep = ("param", d.fi.params[1])
+    actionp = ("param", d.fi.params[2])
     protected = {selfp: "the environment", ("attr", selfp, "network"): "the network",
-                 statep: "the argument state",
+                 statep: "the argument state", actionp: "the action object (shared with the "
+                 "action space)",
                  ("attr", selfp, "current_state"): "the current state",
                  ("attr", selfp, "last_obs"): "the last observation"}
     for ef in d.stores():
         if ef.kind == "attr":
             base = ef.ev.data["base"]
+            hit = [r for r in term_roots(base) if r in protected]
+            if hit and base not in protected:
+                base = hit[0]
             if base in protected or base[0] in ("classref", "module"):
                 chk.violation("C13.pure-stores",
                               f"generative_step call tree stores attribute {ef.root}.{ef.fam}",
@@ -71,6 +76,20 @@ def run(ctx, chk):
                "call (the argument state / current state would be modified)", ef.ev.loc,
                nontrivial=False)
     chk.floor("C13.pure-stores", n_fresh, 4, "array stores on fresh roots")
+    # in-place mutation (add/append/update/...) of containers hanging off protected objects
+    MUT = {"append", "extend", "insert", "pop", "remove", "clear", "update", "setdefault",
+           "popitem", "add", "discard", "sort", "reverse"}
+    for ev in d.events:
+        if ev.kind == "mcall" and ev.data["name"] in MUT:
+            b = ev.data["recv"]
+            chain = b
+            while chain[0] in ("sub", "attr", "proj") and chain not in protected:
+                chain = chain[1]
+            if chain in protected and b[0] not in ("dictobj", "listobj"):
+                chk.violation("C13.pure-stores",
+                              f"generative_step call tree mutates {cn.show(b)[:80]} in place "
+                              f"(.{ev.data['name']}())", f"the generative step must not modify "
+                              f"{protected[chain]}", ev.loc)
     # class-level / module-level stores (HostVector layout etc.) must not happen in a step
     for ev in d.events:
         if ev.kind == "store" and ev.data["target"] == "attr" \
@@ -148,6 +167,25 @@ def run(ctx, chk):
                "function", ok, f"{[sh.show(x)[:80] for x in a]}", sh.fi.module.path)
     chk.assume("numpy: np.copy and np.zeros return fresh arrays; ndarray[i] on a 2-D array is a "
                "view, on a 1-D array a scalar")
+
+
+def term_roots(t, depth=0):
+    """objects a (possibly phi / cases valued) receiver term may denote"""
+    if depth > 8 or not isinstance(t, tuple):
+        return []
+    if t[0] == "phi":
+        return term_roots(t[2], depth + 1) + term_roots(t[3], depth + 1)
+    if t[0] == "cases":
+        out = []
+        for _, x in t[1]:
+            out += term_roots(x, depth + 1)
+        return out
+    if t[0] == "typed":
+        return term_roots(t[2], depth + 1)
+    if t[0] == "sub" and t[1][0] == "attr" and t[1][2] == "actions":
+        # an element of the action space's action list is shared by all episodes
+        return [t[1][1]] + term_roots(t[1][1], depth + 1)
+    return [t]
 
 
 def check_observation_fresh(ctx, chk):
